@@ -52,6 +52,9 @@ pub struct Ctx {
     pub report: Report,
     pub only_suite: Option<String>,
     pub only_case: Option<u64>,
+    /// this process handles the items of an exhaustive enumeration whose index is `part` modulo `parts`
+    pub part: u64,
+    pub parts: u64,
     pub verbose: bool,
     pub watchdog: Arc<Mutex<(std::time::Instant, String)>>,
     pub max_findings: usize,
@@ -113,6 +116,8 @@ fn main() {
     let mut only_suite = None;
     let mut only_case = None;
     let mut verbose = false;
+    let mut part: u64 = 0;
+    let mut parts: u64 = 1;
     let mut i = 1;
     while i < args.len() {
         let a = &args[i];
@@ -130,6 +135,8 @@ fn main() {
             "--suite" => only_suite = Some(val()),
             "--case-seed" => only_case = val().parse().ok(),
             "--verbose" => verbose = true,
+            "--part" => part = val().parse().unwrap_or(0),
+            "--parts" => parts = val().parse::<u64>().unwrap_or(1).max(1),
             _ => {
                 eprintln!("unknown argument {a}");
                 std::process::exit(2);
@@ -185,6 +192,8 @@ fn main() {
         },
         only_suite,
         only_case,
+        part,
+        parts,
         verbose,
         watchdog,
         max_findings: 5,
